@@ -87,7 +87,8 @@ def regrid_case(draw):
     return dict(fg=fg, dg=dg, dims=dims, specs=specs, dtype=draw(st.sampled_from(["float64", "float32"])),
                 tf=draw(target_freq(fg["f"])) if what in ("freq", "both") else None,
                 td=draw(target_dir(sorted(dg["d"]))) if what in ("dir", "both") else None,
-                m0=draw(st.booleans()), dup=draw(st.integers(0, 4)) == 0, as_list=draw(st.booleans()))
+                m0=draw(st.booleans()), dup=draw(st.integers(0, 4)) == 0, as_list=draw(st.booleans()),
+                via=draw(st.sampled_from(["interp", "interp", "interp_like", "interp_like_dataset", "regrid_spec", "dataset"])))
 
 
 def _source(case):
@@ -151,8 +152,26 @@ def check_regrid(case, ctx):
         kw["freq"] = list(tf) if case["as_list"] else np.array(tf)
     if td is not None:
         kw["dir"] = list(td) if case["as_list"] else np.array(td)
-    with ctx.lib("spec.interp(%s, maintain_m0=%s)" % (", ".join(kw), case["m0"])):
-        out = da.spec.interp(maintain_m0=case["m0"], **kw).compute()
+    via = case.get("via", "interp")
+    if via.startswith("interp_like") and (tf is None or td is None):
+        via = "interp"
+    with ctx.lib("%s(%s, maintain_m0=%s)" % (via, ", ".join(kw), case["m0"])):
+        if via == "interp":
+            out = da.spec.interp(maintain_m0=case["m0"], **kw).compute()
+        elif via.startswith("interp_like"):
+            # the target basis given by another spectra object (its values play no part)
+            import xarray as xr
+
+            other = xr.DataArray(np.ones((len(tf), len(td))), coords=dict(freq=np.array(tf), dir=np.array(td)), dims=("freq", "dir"), name="efth")
+            out = da.spec.interp_like(other.to_dataset() if via.endswith("dataset") else other, maintain_m0=case["m0"]).compute()
+        elif via == "regrid_spec":
+            from wavespectra.core.utils import regrid_spec
+
+            out = regrid_spec(da, maintain_m0=case["m0"], **kw).compute()
+        else:
+            out = da.to_dataset(name="efth").spec.interp(maintain_m0=case["m0"], **kw)
+            out = (out.efth if hasattr(out, "data_vars") else out).compute()
+    ctx.label("via=" + via)
     # coordinates exactly as requested
     if tf is not None and not np.array_equal(np.asarray(out.freq.values, dtype=float), np.array(tf)):
         raise Violation("coords", "freq returned %s, requested %s" % (out.freq.values[:6], tf[:6]))
